@@ -4,11 +4,12 @@ from ..tree import int_of, is_node, mir_name, path_of, show, show_stmt, unblock,
 from . import builder
 
 EXPLANATION = (
-    "Who-may-write rule on Builder.next_id from the type-checked MIR field-write census (only id() increments it; new/"
-    "new_from_module initialise it), shape of id()/module()/new*, a result-id source rule over every instruction-emitting "
-    "Builder method (the id is the caller's explicit id or comes from self.id(), never computed), and the three-way "
-    "explicit/found/fresh branch of every implicit-type method plus dedup_insert_type and is_type_identical by normalised shape. "
-    "Counter overflow after 2^32 allocations and caller-chosen colliding explicit ids are outside the claim.")
+    "Who-may-write rule on Builder.next_id and census of Builder constructions from the type-checked MIR (only id() increments it; "
+    "only new/new_from_module/default build a Builder); id(), new, new_from_module, module() and ModuleHeader::new evaluated on "
+    "abstract values; a result-id source rule over every instruction-emitting Builder method (the id is the caller's explicit id or "
+    "one self.id(), never computed, none allocated and dropped); the three-way explicit/found/fresh decision table of every "
+    "implicit-type method plus dedup_insert_type and is_type_identical. Counter overflow after 2^32 allocations and caller-chosen "
+    "colliding explicit ids are outside the claim.")
 EXHAUSTIVE = True
 
 BLD = "rspirv::dr::build"
